@@ -27,7 +27,8 @@ META = {
 def configs(tier):
     out = []
     if tier == "quick":
-        out.append({"kind": "pool", "workers": 1, "cs": 1, "nmax": 1, "api": "imap", "cross_check_por": True})
+        out.append({"kind": "pool", "workers": 1, "cs": 1, "nmax": 0, "api": "imap", "cross_check_por": True, "Ks": (30, 40)})
+        out.append({"kind": "pool", "workers": 1, "cs": 1, "nmax": 1, "api": "imap"})
         out.append({"kind": "pool", "workers": 1, "cs": 1, "nmax": 1, "api": "imap_unordered"})
         out.append({"kind": "pool", "workers": 1, "cs": 1, "nmax": 1, "api": "imap", "rq": 1})
     else:
